@@ -332,6 +332,16 @@ def main():
         obligations.append((f"theorem {t}", good))
     for b in bad_src:
         log("forbidden construct: " + b)
+    if tier == "thorough" and not proof_broken:
+        # independent re-check of the compiled theorem modules by the toolchain's leanchecker
+        for mod_name in cfg["lean_modules"]:
+            t0 = time.time()
+            lc = subprocess.run(["lake", "env", "leanchecker", mod_name], cwd=LEAN, env=ENV,
+                                stdout=subprocess.PIPE, stderr=subprocess.STDOUT, text=True)
+            obligations.append((f"leanchecker {mod_name}", lc.returncode == 0))
+            log(f"leanchecker {mod_name}: rc={lc.returncode} in {time.time()-t0:.1f}s")
+            if lc.returncode != 0:
+                proof_broken = (proof_broken or "") + f"\nleanchecker {mod_name}: " + lc.stdout[-2000:]
 
     # 4. correspondence + 5. oracles
     first_disagreement = {}
